@@ -110,7 +110,7 @@ pub fn decode(prop: &str, sub: &str, data: &[u8]) -> Option<serde_json::Value> {
                     10 => Op::Finalize,
                     11 => Op::FinalizeXof(u.int_in_range(0u16..=300).ok()?),
                     12 => Op::Count,
-                    13 => Op::Clone(u.int_in_range(0u8..=2).ok()?),
+                    13 => Op::Clone(u.int_in_range(0u8..=5).ok()?),
                     14 => Op::Select(u.int_in_range(0u8..=2).ok()?),
                     _ => Op::UpdateMmap(size(u).ok()?),
                 };
@@ -231,7 +231,7 @@ pub fn decode(prop: &str, sub: &str, data: &[u8]) -> Option<serde_json::Value> {
         ("C06", "c-api-histories") => {
             use crate::levels::ALL_LEVELS;
             use props::c06::{COp, Case, InitC};
-            let variant = u.int_in_range(0u8..=1).ok()?;
+            let variant = u.int_in_range(0u8..=8).ok()?;
             let av: Vec<_> = ALL_LEVELS.iter().copied().filter(|l| l.cpu_has()).collect();
             let mask = *u.choose(&av).ok()?;
             let init = match u.int_in_range(0u8..=3).ok()? {
